@@ -311,6 +311,12 @@ func (fx *FX) callContract(st *State, v ssa.Value, callee *ssa.Function, fc *Fun
 	for i, r := range fc.Requires {
 		fx.oblige("pre", fmt.Sprintf("%s.%d", callee.Name(), i+1), g, fx.goalBool(env, r.E), pos, r.Src)
 	}
+	// the callee's functional clauses hold on its domain only
+	calleeDomain := tTrue
+	for _, dcl := range fc.Domain {
+		calleeDomain = and(calleeDomain, fx.hypBool(env, dcl.E))
+	}
+	calleeDomain = fx.def("calleedomain", calleeDomain)
 	// modifies: havoc the named objects (the caller must itself be allowed to write them)
 	for _, m := range fc.Modifies {
 		mv := fx.evalExpr(env, m)
@@ -356,7 +362,7 @@ func (fx *FX) callContract(st *State, v ssa.Value, callee *ssa.Function, fc *Fun
 		post.bound["result"] = res
 	}
 	for _, e := range fc.Ensures {
-		fx.assume(g, fx.hypBool(post, e.E))
+		fx.assume(and(g, calleeDomain), fx.hypBool(post, e.E))
 	}
 	return res
 }
